@@ -840,7 +840,9 @@ func ParseFixedDomainTtl(ks []config.KeyableString) (map[string]int, error) {
 		if err != nil {
 			return nil, fmt.Errorf("failed to parse ttl: %v", err)
 		}
-		m[strings.ToLower(strings.TrimSpace(key))] = int(ttl)
+		// The table is asked with the question name without its trailing dot, lower-cased
+		// (UpdateDnsCacheTtl): store the configured name the same way.
+		m[strings.ToLower(strings.TrimSuffix(strings.TrimSpace(key), "."))] = int(ttl)
 	}
 	return m, nil
 }
